@@ -1340,3 +1340,42 @@ def _bind_temps(kind):
 for _i, _m in enumerate(_MODS + [FU]):
     for _k in ('put', 'ret', 'yld'):
         VARIANTS.append(V(f'G-t{_k}-{_i:02d}', 'E', ALL, _m, None, r'\A.*\Z', _bind_temps(_k), flags=re.S, note=f'value bound to a temporary before every {_k}'))
+
+
+# ---------------------------------------------------------------------- numeric literals of keyword arguments and comparisons moved into module-level constants
+def _extract_constants(m):
+    import ast as _ast
+
+    src = m.group(0)
+    tree = _ast.parse(src)
+    consts = []
+
+    def cname(v):
+        for nm, val in consts:
+            if val == v and type(val) is type(v):
+                return nm
+        nm = f'_CONST_{len(consts)}'
+        consts.append((nm, v))
+        return nm
+
+    def numeric(e):
+        return isinstance(e, _ast.Constant) and isinstance(e.value, (int, float)) and not isinstance(e.value, bool)
+
+    for fn in [x for x in _ast.walk(tree) if isinstance(x, (_ast.FunctionDef, _ast.AsyncFunctionDef))]:
+        for n in _ast.walk(fn):
+            if isinstance(n, _ast.Call):
+                for kw in n.keywords:
+                    if kw.arg and numeric(kw.value):
+                        kw.value = _ast.Name(id=cname(kw.value.value), ctx=_ast.Load())
+            elif isinstance(n, _ast.Compare) and len(n.ops) == 1 and numeric(n.comparators[0]) and n.comparators[0].value not in (0, 1):
+                n.comparators[0] = _ast.Name(id=cname(n.comparators[0].value), ctx=_ast.Load())
+    if not consts:
+        return src
+    at = max((i for i, st in enumerate(tree.body) if isinstance(st, (_ast.Import, _ast.ImportFrom))), default=0) + 1
+    for nm, v in reversed(consts):
+        tree.body.insert(at, _ast.Assign(targets=[_ast.Name(id=nm, ctx=_ast.Store())], value=_ast.Constant(v)))
+    return _ast.unparse(_ast.fix_missing_locations(tree)) + '\n'
+
+
+for _i, _m in enumerate(_MODS + [FU]):
+    VARIANTS.append(V(f'G-cst-{_i:02d}', 'E', ALL, _m, None, r'\A.*\Z', _extract_constants, flags=re.S, note='numeric literals of keyword arguments / comparisons moved into module-level constants'))
